@@ -2,7 +2,7 @@
    Each edit of the model on [encode xs] is the same edit on the code list xs; since the result is
    again of the form [encode _], the statement lifts to every finite history by composition. *)
 From Coq Require Import List NArith Bool Arith.
-From BioSeq Require Import Bits Codec SeqModel SeqProofs History.
+From BioSeq Require Import Bits Codec Tables SeqModel SeqProofs History VM Refine.
 Import ListNotations.
 
 Theorem C06_push : forall (C : codec) (xs : list N) (x : N),
@@ -68,6 +68,19 @@ Theorem C06_history_length_and_symbols : forall (C : codec) (dbg : bool), codec_
             slen C s = length ys /\ iter C s = Some ys.
 Proof. exact history_length_and_symbols. Qed.
 
+(* the same for the WHOLE script language of the correspondence check: every script over the core
+   operations (slicing with nested ranges of all forms, edits, reversal, complement, masking, set
+   operations, text, iteration, windows, chunks, equality, order, hashing, integer views, and the
+   k-mer operations) on which the list-of-symbols machine [lm_run] is defined produces, in the
+   bit-level model that is compared with the implementation, exactly the list machine's
+   observations and no panic, in both build profiles *)
+Theorem C06_vm_refines_list_machine : forall (C : codec) (dbg : bool), codec_ok C ->
+  forall (ci ct : N -> res N) (ic tc ac : codec) (stdt : list tres) (stdc : list (N * cres))
+         (ops : list op) (l' : lstate),
+  lm_run C {| lregs := []; lk := None; lout := [] |} ops = Some l' ->
+  VM.run C dbg ci ct ic tc ac stdt stdc ops = (rev (lout l'), false).
+Proof. exact script_refines. Qed.
+
 (* non-vacuity: a concrete history *)
 Example C06_history_example :
   lrun [1; 2; 3]%N [EPush 0%N; EInsert 1 [3; 3]%N; ERemove 0 0 2; ETruncate 3; EPrepend [2]%N]
@@ -85,3 +98,4 @@ Print Assumptions C06_range_forms.
 Print Assumptions C06_collect.
 Print Assumptions C06_any_history.
 Print Assumptions C06_history_length_and_symbols.
+Print Assumptions C06_vm_refines_list_machine.
